@@ -177,6 +177,19 @@ CHECKS = {
        "kill label, validated on the real kernel by the enumeration, not proved.",
   tech="Lean 4 proof (invariant preserved by kill) + exhaustive crash-point enumeration with model replay",
   ref="§5 C13"),
+ "C14": dict(
+  text="Lean theorems about the key function and the sequential cache (Cache/Keys.lean): C14_key_iff (keys equal iff "
+       "positional lists equal in order and keyword pairs equal as a set), C14_kw_order_irrelevant, "
+       "C14_positional_matters, C14_positional_is_not_keyword, C14_hit_no_invocation, C14_miss_one_invocation, "
+       "C14_evict_forgets / C14_evict_only_that_key (the supplied mapping is the only store) and C14_no_cross_talk "
+       "(for every sequence of calls and evictions, whatever a call returns was computed by an invocation with an "
+       "equal key). Tie: all ordered pairs of signatures from a pool with equal-but-distinct representatives and "
+       "every keyword insertion order, random call/evict sequences on dict, bounded LRU and default store; evictions "
+       "are observed at the mapping; unhashable arguments must raise TypeError before any state change",
+  note=NOTE_COMMON + "Sequential use only (concurrency is C01). Python ==/hash classes of the values are computed "
+       "by the harness and handed to the model.",
+  tech="Lean 4 proof (key equivalence + store invariant by induction over operation sequences) + bounded-exhaustive "
+       "signature-pair differential", ref="§5 C14"),
 }
 
 def main():
